@@ -26,6 +26,7 @@ import (
 	sdktrace "go.opentelemetry.io/otel/sdk/trace"
 	"go.opentelemetry.io/otel/trace"
 
+	"verifharness/spanlist"
 	"verifharness/vf"
 )
 
@@ -1228,6 +1229,17 @@ func runMultiReader(k *vf.Case) {
 	k.C.Sig(fmt.Sprintf("multi|%d|%d|%d", n, failing, len(manuals)))
 }
 
+// runListEdit: membership while the processor list is edited under a span's End (shared scenario, package
+// spanlist): processors registered throughout get the span exactly once, whoever leaves or joins meanwhile.
+func runListEdit(k *vf.Case) {
+	desc, vs := spanlist.Run(k.R)
+	for _, v := range vs {
+		k.Violate("fan-out-mismatch", "processor list edited during End", v, nil)
+	}
+	k.C.Count("list_edit_cases", 1)
+	k.C.Sig("list-edit|" + desc)
+}
+
 func main() {
 	vf.Main("C15", "exploration", func(c *vf.Ctx) {
 		c.Rule = "child process per batch of programs: (A) sequential programs of 5-60 Register/Unregister(registered, never registered, already unregistered)/Tracer/Start+End/ForceFlush/Shutdown(live, deadline, cancelled) on the TracerProvider against a membership model; (B) stock matrix {Simple,Batch} span processor x {recording, stdouttrace, nil} exporter, (C) {Manual, Periodic} reader x {recording incl. failing export, stdoutmetric}, (D) {Simple,Batch} log processor x {recording, stdoutlog, nil}, each with 1-4 Shutdown calls issued sequentially or concurrently, through the provider or the component, then telemetry/flush/shutdown calls after Shutdown; (E) concurrent op alphabet on the TracerProvider from 2-16 goroutines under -race; (F) 4-16 producers, 0-2 flushers and 1-2 Shutdown callers released together on a batch span processor (blocking and dropping, queue 1-4), log batch processor (queue 1-8) or periodic reader with a slow exporter: every call must return (watchdog 30 s + two identical stack samples). distinct = distinct (family, component kinds, shutdown pattern, context kind) signatures"
@@ -1236,6 +1248,7 @@ func main() {
 		otel.SetLogger(logr.Discard())
 		iso := vf.IsoOpts{Batch: 50, Par: 16, Timeout: 5 * time.Minute}
 		c.Isolated("trace-seq", c.N(2000, 30_000), iso, runTraceSeq)
+		c.Isolated("list-edit", c.N(300, 4000), iso, runListEdit)
 		c.Isolated("trace-stock", c.N(800, 10_000), iso, runTraceStock)
 		c.Isolated("metric", c.N(800, 10_000), iso, runMetric)
 		c.Isolated("log", c.N(800, 10_000), iso, runLog)
